@@ -1064,7 +1064,7 @@ func (c *Ctx) successSummary(fn *ssa.Function, depth int) []Lin {
 	var common []Lin
 	first := true
 	for _, ret := range returnsOf(fn) {
-		if errIdx >= 0 && !mayBeNil(ret.Results[errIdx], map[ssa.Value]bool{}) {
+		if errIdx >= 0 && !mayBeNil(retOperand(ret, errIdx), map[ssa.Value]bool{}) {
 			continue // error return
 		}
 		if errIdx >= 0 {
@@ -1384,7 +1384,7 @@ func (c *Ctx) lenSummary(fn *ssa.Function) (Lin, bool) {
 	var first Lin
 	n := 0
 	for _, ret := range returnsOf(fn) {
-		l := fb.lenLin(ret.Results[0])
+		l := fb.lenLin(retOperand(ret, 0))
 		if !onlyParamSyms(fn, l) {
 			return Lin{}, false
 		}
